@@ -249,9 +249,15 @@ func (w *world) foLit(v lang.Value, t *lang.Type) string {
 	case *lang.RecV:
 		r := w.rec(x.Name)
 		var p []string
-		for i, f := range r.Fields {
+		// a literal may list its fields in any order (fields are paired by name)
+		order := rapid.Permutation(seqInts(len(r.Fields))).Draw(w.rt, "literalFieldOrder")
+		if len(order) > 1 && !sort.IntsAreSorted(order) {
+			w.labels["record literal with permuted fields"] = true
+		}
+		for k, i := range order {
+			f := r.Fields[i]
 			n := f.Name
-			if i == 0 {
+			if k == 0 {
 				n = r.Name + "." + n // qualified: the record type is named explicitly
 				if len(r.TParams) > 0 {
 					n = f.Name
@@ -549,6 +555,27 @@ func genDeclCase(rt *rapid.T) (Case, []string) {
 			fmt.Fprintf(&fo, "let put%d (v:%s) = frt.Printf1 \"put%d %%v\\n\" v\n\n", k, t.Src(0), k)
 			fmt.Fprintf(&goMain, "\tput%d(%s)\n", k, w.goLit(v2, t))
 			fmt.Fprintf(want, "put%d %s\n", k, lang.Show(v2))
+		}
+		// (a') a record built from un-annotated parameters: the parameter types Go sees are the field types,
+		// whatever order the literal lists the fields in
+		if rv, ok := v2.(*lang.RecV); ok && t.K == "rec" {
+			r := w.rec(t.Name)
+			order := rapid.Permutation(seqInts(len(r.Fields))).Draw(w.rt, "ctorFieldOrder")
+			var ps, inits, goArgs []string
+			for j := range r.Fields {
+				ps = append(ps, fmt.Sprintf("p%d", j))
+				goArgs = append(goArgs, w.goLit(rv.F[j], subst(r.Fields[j].T, r.TParams, t.E)))
+			}
+			for _, j := range order {
+				inits = append(inits, fmt.Sprintf("%s=p%d", r.Fields[j].Name, j))
+			}
+			w.labels["record built from un-annotated parameters"] = true
+			if len(order) > 1 && !sort.IntsAreSorted(order) {
+				w.labels["record built from un-annotated parameters, fields permuted"] = true
+			}
+			fmt.Fprintf(&fo, "let mkr%d %s = {%s}\n\n", k, strings.Join(ps, " "), strings.Join(inits, "; "))
+			fmt.Fprintf(&goMain, "\tfmt.Println(\"mkr%d\", %s(mkr%d(%s)))\n", k, d, k, strings.Join(goArgs, ", "))
+			fmt.Fprintf(want, "mkr%d %s\n", k, lang.Show(v2))
 		}
 		// (c) Go makes, Folang passes it through, Go reads
 		fmt.Fprintf(&fo, "let same%d (v:%s) = v\n\n", k, t.Src(0))
@@ -1333,4 +1360,12 @@ func TestRecursiveDeclarations(t *testing.T) {
 		e.Record("TestRecursiveDeclarations", vt.HashJSON(c), true, labels, func() any { return c })
 		e.Check(rt, "package", c, func() error { return check(c) })
 	})
+}
+
+func seqInts(n int) []int {
+	out := make([]int, n)
+	for i := range out {
+		out[i] = i
+	}
+	return out
 }
